@@ -40,9 +40,24 @@ RULE = ("(1) kinds: the COMPLETE product {sun_zenith_angle, cos_zen, get_alt_az,
         "but one, periodic} x coordinates {one per element, one scalar observer}; instants = a track (spacing 1 s / 37 s / 10 min) "
         "or seeded instants within 3 d / 0.1 d of the epoch: every element vs the scalar call given that element (1e-6 of the "
         "unit, angles modulo a turn); "
+        "(6) shapes that coincide ambiguously: the six functions that take coordinates x times / lon / lat / alt shapes in which every "
+        "axis is N or 1 (N 2..4: times (N,) with (N,N), (N,1), (1,N), (N,N,N) grids, times (N,1) / (N,N) / (1,N) / (N,1,1) with (N,) "
+        "and (N,1) coordinates, lon / lat / alt of different shapes; 13 fixed combinations + seeded trailing parts of one (K,N,M)) x "
+        "{datetime64 array, object array}: every element vs the scalar call on the elements numpy's own rule pairs "
+        "(np.broadcast_arrays of the inputs), first component of the broadcast shape (1e-6 of the unit); "
+        "(7) integer types: COMPLETE product {sun_zenith_angle, cos_zen, get_alt_az, observer_position} x {int8, int16, int32, int64, "
+        "uint8, uint16, uint32, uint64, float16; Python int} x {scalar, 0-d, 1-d, 2-d ndarray, 1-d dask} x time {datetime, datetime64, "
+        "datetime64 array}, seeded longitudes -180..359 as far as the type holds them (always one above 180, one negative for signed "
+        "types, one in 0..180), latitudes, altitudes 0..3: no call raises, scalars give scalars, broadcast shape, every element vs the "
+        "float call at the same real numbers (1e-6 of the unit where numpy computes in binary64; for 8- and 16-bit types, which "
+        "numpy itself computes in float16 / float32: 16 eps of that type on the cosines, through the conditioning of arccos / arcsin / "
+        "arctan2 at the reference; 16 eps of 6400 km / 0.5 km/s for observer_position); "
         "distinct = (function, time kind, coordinate kind) cell, instant, (function, shapes, element set, first instant), "
         "(element set, first instant, operation sequence) or (function, time kind, rank, order, coordinates, element set, first instant)")
-ASSUMPTIONS = ["orbit cases are (element set, instant) pairs at which the propagated radius is 6300..100000 km; decayed element sets "
+ASSUMPTIONS = ["8- and 16-bit integer (and float16) coordinates: numpy itself computes these in float16 / float32; they are judged "
+               "against the real values at the resolution of that type, and elements with the sun within arccos(1 - 64 eps) of the "
+               "zenith or nadir (20 deg for float16, 0.2 deg for float32) are not judged",
+               "orbit cases are (element set, instant) pairs at which the propagated radius is 6300..100000 km; decayed element sets "
                "(radius 1e6 km and more a few days from epoch) are outside the sampled domain",
                "dask laziness and xarray wrappers are library behaviour (dask enumerated by kind and probed for laziness with a "
                "side-effecting block function; xarray not covered)",
@@ -889,6 +904,239 @@ def check_timeshape(o, name, kind, shape, layout, coords, base_us, index, lons, 
     return cnt, bad
 
 
+# ------------------------------------------------------------------ oracle (6): shapes that coincide ambiguously
+# [times, lon, lat, alt] shapes as functions of one length N: every axis is N or 1, so that numpy's rule (align the LAST
+# axes) is the only thing that says which axis of one argument goes with which axis of another
+AMBIGUOUS = [
+    lambda n: [(n,), (n, n), (n, n), (n, n)],              # 1-d times with a square grid: times run along the LAST axis
+    lambda n: [(n,), (n, 1), (n, 1), (n, 1)],
+    lambda n: [(n,), (1, n), (1, n), (1, n)],
+    lambda n: [(n,), (n, n, n), (n, n, n), (n, n, n)],
+    lambda n: [(n, 1), (n,), (n,), (n,)],
+    lambda n: [(n, n), (n,), (n,), (n,)],
+    lambda n: [(1, n), (n, 1), (n, 1), (n, 1)],
+    lambda n: [(n,), (n, n), (n,), ()],
+    lambda n: [(n,), (n, 1), (1, n), (n,)],
+    lambda n: [(n, n), (n, 1), (n,), (n, n)],
+    lambda n: [(n,), (n, n, 1), (n, 1, n), (1, n)],
+    lambda n: [(n, 1, 1), (n,), (n, n), ()],
+    lambda n: [(n,), (n, n), (n, n), ()],
+]
+
+
+def random_shapes(rng):
+    """[times, lon, lat, alt] shapes: trailing parts of one (K, N, M) with axes replaced by 1 at random (always
+    broadcast-compatible); K, N, M in 2..4 and mostly equal."""
+    if rng.random() < 0.6:
+        dims = (rng.choice([2, 3, 4]),) * 3
+    else:
+        dims = tuple(rng.choice([2, 3, 4]) for _ in range(3))
+    out = []
+    for k in range(4):
+        r = rng.choice([1, 1, 2, 2, 3] if k == 0 else [0, 1, 1, 2, 2, 2, 3])
+        out.append(tuple(1 if rng.random() < 0.25 else d for d in dims[3 - r:]))
+    if all(d == 1 for d in out[0]):
+        out[0] = dims[2:]
+    return out
+
+
+def check_shapes(o, name, kind, shapes, times_us, lons, lats, alts):
+    """Array call of `name` with times / lon / lat / alt of the given (broadcast-compatible) shapes vs the scalar calls on
+    the elements numpy's broadcasting pairs (np.broadcast_arrays of the inputs), 1e-6 of the unit, angles modulo a turn.
+    kind: 'us' (datetime64[us] array) or 'obj' (object array of datetimes). Returns (n_compared, [violations])."""
+    fa, fs, needs_coords, wrap, pos_layout = broadcast_calls(o)[name]
+    shapes = [tuple(s) for s in shapes]
+
+    def arg(vals, shape):
+        n = int(np.prod(shape)) if shape else 1
+        return float(vals[0]) if shape == () else np.array(vals[:n], dtype=float).reshape(shape)
+    nt = int(np.prod(shapes[0]))
+    ts = np.empty(nt, dtype=object)
+    for k in range(nt):
+        ts[k] = EPOCH70 + dt.timedelta(microseconds=int(times_us[k]))
+    ts = ts.reshape(shapes[0])
+    T = ts.copy() if kind == "obj" else np.array([np.datetime64(int(u), "us") for u in times_us[:nt]]).reshape(shapes[0])
+    lo, la, al = (arg(v, s) for v, s in zip((lons, lats, alts), shapes[1:]))
+    if name in ("sun_zenith_angle", "cos_zen", "get_alt_az"):
+        al = 0.0                                                    # these take no altitude
+    tb, lob, lab, alb = np.broadcast_arrays(ts, lo, la, al)         # numpy's own rule: which elements go together
+    common = tb.shape
+    bad = []
+    cnt = 0
+    with warnings.catch_warnings():
+        warnings.simplefilter("ignore")
+        arr = fa(T, lo, la, al)
+        if pos_layout:
+            arr = [c for block in arr for c in np.asarray(block)]
+        full = []
+        for i, a in enumerate(arr):
+            try:
+                full.append(np.broadcast_to(np.asarray(a, dtype=float), common))
+            except ValueError:
+                return cnt + 1, [("shape", i, [], list(np.shape(a)), "broadcastable to %s" % list(common))]
+        if tuple(np.shape(arr[0])) != common:
+            return cnt + 1, [("shape", 0, [], list(np.shape(arr[0])), list(common))]
+        for idx in np.ndindex(common):
+            one = fs(tb[idx], float(lob[idx]), float(lab[idx]), float(alb[idx]))
+            if len(full) != len(one):
+                bad.append(("arity", 0, list(idx), len(full), len(one)))
+                return cnt, bad
+            for i, (a, s) in enumerate(zip(full, one)):
+                cnt += 1
+                d = abs(float(a[idx]) - float(s))
+                if wrap and wrap[i]:
+                    d = min(d, abs(d - wrap[i]))
+                if not d <= 1e-6:
+                    bad.append(("array_vs_scalar", i, list(idx), float(a[idx]), float(s)))
+                    return cnt, bad
+    return cnt, bad
+
+
+# ------------------------------------------------------------------ oracle (7): every integer type at its real values
+INT_TYPES = ["pyint", "int64", "uint64", "int32", "uint32", "int16", "uint16", "int8", "uint8", "float16"]
+INT_CONTAINERS = ["scalar", "arr0", "arr1", "arr2", "dask1"]
+INT_TIMES = ["datetime", "dt64us", "dtarr"]
+
+
+def int_values(rng, tname, n):
+    """n (lon, lat, alt) triples the type can hold: longitudes in -180..359 (both conventions), at least one above 180 and,
+    for signed types, at least one negative where the type has them; whole numbers (float16: any float16 value)."""
+    if tname == "float16":
+        lo = [float(np.float16(rng.uniform(-180, 359))) for _ in range(n)]
+        lo[rng.randrange(n)] = float(np.float16(rng.uniform(181, 359)))
+        return lo, [float(np.float16(rng.uniform(-90, 90))) for _ in range(n)], [float(np.float16(rng.uniform(0, 3))) for _ in range(n)]
+    info = np.iinfo(np.int64 if tname == "pyint" else np.dtype(tname))
+    lo_min, lo_max = max(-180, int(info.min)), min(359, int(info.max))
+    lons = [rng.randint(lo_min, lo_max) for _ in range(n)]
+    slots = rng.sample(range(n), 3)
+    if lo_max > 180:
+        lons[slots[0]] = rng.randint(181, lo_max)
+    if lo_min < 0:
+        lons[slots[1]] = rng.randint(lo_min, -1)
+    lons[slots[2]] = rng.randint(max(0, lo_min), min(180, lo_max))
+    lats = [rng.randint(max(-90, int(info.min)), 90) for _ in range(n)]
+    alts = [rng.randint(0, 3) for _ in range(n)]
+    return lons, lats, alts
+
+
+def compute_eps(tname):
+    """Machine epsilon of the floating type numpy itself computes in when given that type (np.deg2rad's result type:
+    float16 for 8-bit integers, float32 for 16-bit ones, float64 otherwise)."""
+    if tname == "pyint":
+        return float(np.finfo(np.float64).eps)
+    return float(np.finfo(np.deg2rad(np.zeros((), dtype=tname)).dtype).eps)
+
+
+def real_value_tol(fn, i, ref, eps):
+    """How far the result for an integer-typed input may be from the float call at the same real numbers: 1e-6 of the unit
+    where numpy computes in binary64; for the types numpy computes in float32 / float16 the resolution of that type:
+    16 eps on a cosine or sine, carried through the arccos / arcsin / arctan2 by their conditioning at the reference, 16 eps
+    of the earth radius / of the rotation speed for the observer's position / velocity."""
+    if eps <= float(np.finfo(np.float64).eps):
+        return 1e-6 * UNIT[fn]
+    d = 16 * eps
+    if fn == "cos_zen":
+        return d
+    if fn == "sun_zenith_angle":
+        return math.degrees(2 * d / max(math.sin(math.radians(ref[0])), math.sqrt(d))) + 2 * eps * 180.0
+    if fn == "get_alt_az":
+        c = math.cos(ref[0])
+        if i == 0:
+            return 2 * d / max(c, math.sqrt(d)) + eps * math.pi
+        return min(math.pi, 2 * d / max(c, 1e-300)) + 2 * eps * math.pi
+    if fn == "observer_position":
+        return d * (6400.0 if i < 3 else 0.5)
+    raise ValueError(fn)
+
+
+def near_zenith(fn, ref, eps):
+    """Reduced-precision types only: the sun is so close to the zenith or the nadir (|cos of the zenith angle| > 1 - 64 eps)
+    that sines and cosines rounded to that type may leave [-1, 1]; such elements are not judged."""
+    if eps <= float(np.finfo(np.float64).eps) or fn == "observer_position":
+        return False
+    c = {"cos_zen": lambda: ref[0], "sun_zenith_angle": lambda: math.cos(math.radians(ref[0])), "get_alt_az": lambda: math.sin(ref[0])}[fn]()
+    return not abs(c) <= 1 - 64 * eps
+
+
+def check_inttype(fn, tname, cont, tkind, times_us, lons, lats, alts):
+    """One astronomy function given coordinates of one integer type (or float16 / Python int) in one container, values
+    incl. longitudes above 180 and negative numbers: every element vs the float call at the same real numbers
+    (real_value_tol), scalars give scalars, the result has the broadcast shape, nothing raises.
+    Returns (n_compared, [(kind, detail, observed, required)])."""
+    import dask.array as da
+    n = len(lons)
+    ts = [EPOCH70 + dt.timedelta(microseconds=int(u)) for u in times_us]
+    eps = compute_eps(tname)
+
+    def one(v):
+        return int(v) if tname == "pyint" else np.dtype(tname).type(v)
+
+    def pack(vals):
+        if cont == "arr0":
+            return np.array(vals[0], dtype=tname)
+        a = np.array(vals, dtype=tname)
+        if cont == "arr2":
+            return a.reshape(2, n // 2)
+        return da.from_array(a, chunks=a.shape) if cont == "dask1" else a
+    if cont == "scalar":
+        calls = [(k, one(lons[k]), one(lats[k]), one(alts[k]), [lons[k]], [lats[k]], [alts[k]], ()) for k in range(n)]
+    else:
+        cshape = {"arr0": (), "arr1": (n,), "arr2": (2, n // 2), "dask1": (n,)}[cont]
+        m = int(np.prod(cshape)) if cshape else 1
+        calls = [(0, pack(lons), pack(lats), pack(alts), lons[:m], lats[:m], alts[:m], cshape)]
+    bad = []
+    cnt = 0
+    with warnings.catch_warnings():
+        warnings.simplefilter("ignore")
+        for k, lo, la, al, lo_r, la_r, al_r, cshape in calls:
+            if tkind == "dtarr":
+                tshape = cshape if cshape else (n,)
+                tt = np.empty(int(np.prod(tshape)), dtype=object)
+                tt[:] = ts[:len(tt)]
+                tt = tt.reshape(tshape)
+                T = np.array([np.datetime64(int(u), "us") for u in times_us[:tt.size]]).reshape(tshape)
+            else:
+                tt = np.empty((), dtype=object)
+                tt[()] = ts[k]
+                T = ts[k] if tkind == "datetime" else np.datetime64(int(times_us[k]), "us")
+            where = {"call": k}
+            try:
+                res = call(fn, T, lo, la, al)
+                if cont == "dask1":
+                    import dask
+                    res = list(dask.compute(*res, scheduler="synchronous"))
+            except Exception as e:  # noqa
+                bad.append(("raises", where, type(e).__name__ + ": " + str(e)[:120], "a result"))
+                return cnt + 1, bad
+            tb, lob, lab, alb = np.broadcast_arrays(tt, *(np.array(v, dtype=float).reshape(cshape) for v in (lo_r, la_r, al_r)))
+            common = tb.shape
+            for i, x in enumerate(res):
+                w = dict(where, index=i)
+                if cont == "scalar" and tkind != "dtarr" and not (isinstance(x, np.generic) or type(x) is float):
+                    bad.append(("scalar_in_not_scalar_out", w, descr(x), "a scalar"))
+                    return cnt + 1, bad
+                try:
+                    xv = np.broadcast_to(np.asarray(x, dtype=np.float64), common)
+                    ok = i != 0 or tuple(np.shape(x)) == common
+                except ValueError:
+                    ok = False
+                if not ok:
+                    bad.append(("shape", w, list(np.shape(x)), "broadcastable to %s%s" % (list(common), ", equal for the first component" if i == 0 else "")))
+                    return cnt + 1, bad
+            for idx in np.ndindex(common):
+                ref = [float(r) for r in call(fn, tb[idx], float(lob[idx]), float(lab[idx]), float(alb[idx]))]
+                if near_zenith(fn, ref, eps):
+                    continue
+                for i, x in enumerate(res):
+                    cnt += 1
+                    got = float(np.broadcast_to(np.asarray(x, dtype=np.float64), common)[idx])
+                    if not angle_diff(fn, i, got, ref[i]) <= real_value_tol(fn, i, ref, eps):
+                        bad.append(("not_at_real_value", dict(where, index=i, element=list(idx), lon=float(lob[idx]), lat=float(lab[idx]),
+                                                              alt=float(alb[idx])), got, ref[i]))
+                        return cnt, bad
+    return cnt, bad
+
+
 # ------------------------------------------------------------------ oracle (4): sequences reusing one array object
 SEQ_OPS = ["pos_n", "pos_km", "lla", "look", "modlook", "sza", "alt_az", "obs", "gmst"]
 FIXED_SEQ = ["pos_n", "lla", "pos_km", "shift:60", "lla", "pos_km", "pos_n", "look", "cshift:0.5", "look", "obs", "shift:-17", "sza", "pos_n", "pos_n"]
@@ -1103,6 +1351,59 @@ def oracle(ctx):
                                                       "base_us": base_us, "index": index, "lons": lons[:n], "lats": lats[:n],
                                                       "alts": alts[:n], "component": i, "element": idx}, got, ref, site=name)
 
+    # (6) shapes that coincide ambiguously: numpy's broadcasting rule alone says which elements go together
+    names = [nm for nm, c in broadcast_calls(objs[0][2]).items() if c[2]]
+    n_rand = ctx.size(14, 500)
+    for k in range(len(AMBIGUOUS) * ctx.size(1, 6) + n_rand):
+        a_, b_, o = objs[(k * 5 + 2) % len(objs)]
+        if k >= n_rand:
+            shapes = AMBIGUOUS[(k - n_rand) % len(AMBIGUOUS)](ctx.rng.choice([2, 3, 4]))
+        else:
+            shapes = random_shapes(ctx.rng)
+        kind = "obj" if ctx.rng.random() < 0.4 else "us"
+        nt = int(np.prod(shapes[0]))
+        nc = max(int(np.prod(s)) if s else 1 for s in shapes[1:])
+        ts = sane_times(ctx, o, nt, 3.0)
+        if len(ts) < nt:
+            continue
+        times_us = [int((t - EPOCH70) / dt.timedelta(microseconds=1)) for t in ts]
+        lons = [ctx.rng.uniform(-180, 180) for _ in range(nc)]
+        lats = [ctx.rng.uniform(-90, 90) for _ in range(nc)]
+        alts = [ctx.rng.uniform(0, 2) for _ in range(nc)]
+        for name in names:
+            try:
+                n, bad = check_shapes(o, name, kind, shapes, times_us, lons, lats, alts)
+            except Exception as e:  # noqa
+                n, bad = 1, [("raises", 0, [], type(e).__name__ + ": " + str(e)[:120], "a result")]
+            ctx.count("eval_oracle_shapes", n)
+            ctx.bump("ambiguous_shapes", "fixed" if k >= n_rand else "random")
+            ctx.distinct(("shapes", name, str(shapes), kind, a_[2:7], times_us[0]))
+            for vkind, i, idx, got, ref in bad:
+                ctx.violation(vkind, {"check": "shapes", "fn": name, "time_kind": kind, "shapes": [list(s) for s in shapes], "line1": a_,
+                                      "line2": b_, "times_us": times_us, "lons": lons, "lats": lats, "alts": alts, "component": i,
+                                      "element": idx}, got, ref, site=name)
+
+    # (7) every integer type (signed, unsigned, Python int; float16) in every container at its real values: complete product
+    for rnd in range(ctx.size(1, 8)):
+        for fn in COORD_FNS:
+            for tname in INT_TYPES:
+                for cont in (["scalar"] if tname == "pyint" else INT_CONTAINERS):
+                    for tkind in INT_TIMES:
+                        lons, lats, alts = int_values(ctx.rng, tname, 6)
+                        first = ctx.rng.randrange(631152000, 2208988800) * 10 ** 6 + ctx.rng.choice([0, ctx.rng.randrange(10 ** 6)])
+                        times_us = [first + ctx.rng.randrange(0, 86400 * 10 ** 6) * j for j in range(6)]
+                        try:
+                            n, bad = check_inttype(fn, tname, cont, tkind, times_us, lons, lats, alts)
+                        except Exception as e:  # noqa
+                            n, bad = 1, [("raises", {}, type(e).__name__ + ": " + str(e)[:120], "a result")]
+                        ctx.count("eval_oracle_inttypes", n)
+                        ctx.bump("integer_type", tname)
+                        ctx.distinct(("inttype", fn, tname, cont, tkind, times_us[0]))
+                        for vkind, detail, got, ref in bad:
+                            ctx.violation(vkind, dict({"check": "inttype", "fn": fn, "type": tname, "container": cont, "time": tkind,
+                                                       "times_us": times_us, "lons": lons, "lats": lats, "alts": alts}, **detail),
+                                          got, ref, site="astronomy." + fn)
+
 
 def match_known(entry, v):
     return False
@@ -1140,7 +1441,26 @@ def replay(ctx, case):
             print("violation:", b)
         print("cell", inp["fn"], inp["time"], inp["coord"], "->", "%d violation(s)" % len(bad))
         return 1 if bad else 0
+    if chk == "inttype":
+        try:
+            n, bad = check_inttype(inp["fn"], inp["type"], inp["container"], inp["time"], inp["times_us"], inp["lons"], inp["lats"], inp["alts"])
+        except Exception as e:  # noqa
+            n, bad = 1, [("raises", {}, type(e).__name__ + ": " + str(e)[:120], "a result")]
+        for b in bad:
+            print("violation:", b)
+        print(inp["fn"], inp["type"], inp["container"], inp["time"], "lon", inp["lons"], "lat", inp["lats"], "->",
+              "%d violation(s) in %d comparisons with the float calls" % (len(bad), n))
+        return 1 if bad else 0
     o = orbital.Orbital("x", line1=inp["line1"], line2=inp["line2"])
+    if chk == "shapes":
+        try:
+            n, bad = check_shapes(o, inp["fn"], inp["time_kind"], inp["shapes"], inp["times_us"], inp["lons"], inp["lats"], inp["alts"])
+        except Exception as e:  # noqa
+            n, bad = 1, [("raises", type(e).__name__ + ": " + str(e)[:120])]
+        for b in bad:
+            print("violation:", b)
+        print(inp["fn"], "times / lon / lat / alt shapes", inp["shapes"], "->", "%d violation(s) in %d comparisons" % (len(bad), n))
+        return 1 if bad else 0
     if chk == "repr":
         us, n, bad = check_repr(o, dt.datetime.fromisoformat(inp["utc"]), inp["lon"], inp["lat"], inp["alt"], only=inp["fn"])
         for b in bad:
